@@ -235,3 +235,11 @@ obligation('C15-f', 'T1 T3', 'the row index is available when the per-row sub-se
            '(shared with C18-c)', floor=5,
            necessary='otherwise every row of a batch is given index 0 and the same derived '
                      'seed')(_C18.c18_c)
+
+
+
+@obligation('C15-g', 'T6 T11', 'seed 0, batch index 0 and row index 0 are never tested by truth value', floor=3,
+            necessary='a falsy row or batch index falls through to another index: two indices receive the same derived seed')
+def c15_g(ctx):
+    from .base import zero_is_valid_obligation
+    zero_is_valid_obligation(ctx, ['batch_index', 'index_in_batch', 'seed'])
